@@ -352,6 +352,14 @@ func c18RelayCase(c *Ctx) *Result {
 	}
 	var sent []sentT
 	cnt := 10 + r.Intn(12)
+	unresolvable := r.Intn(3) == 0
+	badPos := cnt / 2
+	params["unresolvable_name_at"] = -1
+	if unresolvable {
+		params["unresolvable_name_at"] = badPos
+	}
+	repliesAfterBad := 0
+	sentByID := map[int][]byte{}
 	for i := 0; i < cnt; i++ {
 		d := r.Intn(4)
 		if i == 0 {
@@ -363,7 +371,18 @@ func c18RelayCase(c *Ctx) *Result {
 		if i == 1 {
 			d = 1 // A first, then B right away: A's reply arrives after B's header was read
 		}
-		body := dgramBody(d, i, pick(r, 12, 13, 100, 1000, 1400), byte(i))
+		if unresolvable && i == badPos {
+			// one datagram for a name the server's resolver does not know: it
+			// cannot be delivered, the association carries on
+			tun.Write(append(socksUDPHeaderDomain("no-such-host.invalid", 5353), dgramBody(9, 1000+i, 40, 0)...))
+		}
+		size := pick(r, 12, 13, 100, 1000, 1400)
+		if r.Intn(10) == 0 && !byName[d] && d != 2 {
+			// near the largest datagram UDP carries; the echo adds one byte
+			size = pick(r, 60000, 65273, 65274, 65300, 65506)
+		}
+		body := dgramBody(d, i, size, byte(i))
+		sentByID[i] = body
 		ua := dests[d].conn.LocalAddr().(*net.UDPAddr)
 		pkt := append(socksUDPHeader(ua.IP, ua.Port), body...)
 		if byName[d] {
@@ -371,6 +390,12 @@ func c18RelayCase(c *Ctx) *Result {
 		}
 		a.SetWriteDeadline(time.Now().Add(3 * time.Second))
 		if _, err := tun.Write(pkt); err != nil {
+			if unresolvable && i >= badPos {
+				res.Verdict, res.Sig = Violated, "C18|relay|association-ended-by-unresolvable-destination"
+				res.Detail = fmt.Sprintf("after the datagram addressed to an unresolvable name (position %d) the relay no longer takes datagrams from the tunnel: write %d fails with %v", badPos, i, err)
+				res.Shape = shapeHash(c.Idx)
+				return res
+			}
 			res.Verdict, res.Detail = Inconclusive, "tunnel write: "+err.Error()
 			return res
 		}
@@ -447,6 +472,26 @@ func c18RelayCase(c *Ctx) *Result {
 			break
 		}
 		res.Obs["replies_checked"]++
+		if len(body) >= 9 && int(binary.BigEndian.Uint32(body[5:])) >= badPos {
+			repliesAfterBad++
+		}
+		// the reply is the echo of one datagram: same bytes, same length
+		if len(body) >= 9 {
+			id := int(binary.BigEndian.Uint32(body[5:]))
+			if want, ok := sentByID[id]; ok && !bytes.Equal(body[1:], want) {
+				sig, detail = "reply-altered-by-the-relay", fmt.Sprintf("destination %c echoed datagram %d (%d bytes + 1); the reply arrived through the tunnel with %d bytes (equal prefix: %v)", tag, id, len(want), len(body), len(body) > 1 && len(body)-1 <= len(want) && bytes.Equal(body[1:], want[:len(body)-1]))
+				break
+			}
+			if len(body) > 60000 {
+				res.Obs["large_replies_checked"]++
+			}
+		}
+	}
+	if sig == "" && unresolvable {
+		res.Obs["associations_with_an_unresolvable_name"]++
+		if repliesAfterBad == 0 && replies > 0 {
+			sig, detail = "association-ended-by-unresolvable-destination", fmt.Sprintf("%d replies came back for the datagrams before the one addressed to an unresolvable name, none for the %d datagrams after it", replies, cnt-badPos)
+		}
 	}
 	time.Sleep(50 * time.Millisecond)
 	// what each destination received: exactly the datagrams addressed to it
